@@ -376,6 +376,10 @@ func runCheck(repo, prop, tier, fnFilter, outDir string, noReplay, verbose bool)
 	if rep.EngineFault {
 		return 2
 	}
+	if os.Getenv("NSQVC_KEEP_VC") == "" {
+		// every obligation discharged: the SMT files (hundreds of MB per property) are not needed any more
+		os.RemoveAll(filepath.Join(out, "vc"))
+	}
 	return 0
 }
 
